@@ -194,6 +194,9 @@ func VerifC06Path() {
 		"#n = :v", "#m.#k = :v", "#m.k = :v", "m.inner.j = :v", "m.k.j = :v",
 		"attribute_exists(m.k)", "attribute_exists(m.missing)", "attribute_exists(l[1])", "attribute_not_exists(l[5])", "attribute_exists(x.k)",
 		"begins_with(m.k, :v)", "size(l) = :n", "size(m) = :n",
+		// a top-level attribute whose name contains a dot, reachable only through a placeholder: it is that
+		// attribute, not the path m -> k
+		"#d = :v", "#d <> :v", "attribute_exists(#d)", "#e = :v", "attribute_exists(#e)",
 	}
 	expr := texts[nd.Choice("text", len(texts))]
 	lv := []vspec.Val{{Kind: "S", S: nd.StringN("l0", 1)}}
@@ -204,6 +207,16 @@ func VerifC06Path() {
 		"a": {Kind: "S", S: nd.StringN("a", 1)},
 		"m": {Kind: "M", M: map[string]vspec.Val{"k": {Kind: "S", S: nd.StringN("mk", 1)}, "inner": {Kind: "M", M: map[string]vspec.Val{"j": {Kind: "S", S: nd.StringN("mj", 1)}}}}},
 		"l": {Kind: "L", L: lv},
+	}
+	order := []string{"a", "m", "l"}
+	for i := 0; i+2 <= len(expr); i++ {
+		if expr[i:i+2] == "#d" || expr[i:i+2] == "#e" {
+			// "m.k" exists both as a dotted top-level name and as a path; "x.y" only as a dotted name
+			item["m.k"] = vspec.Val{Kind: "S", S: nd.StringN("dotted", 1)}
+			item["x.y"] = vspec.Val{Kind: "S", S: nd.StringN("dotted2", 1)}
+			order = []string{"a", "m", "l", "m.k", "x.y"}
+			break
+		}
 	}
 	vals := map[string]vspec.Val{}
 	var used []string
@@ -220,7 +233,7 @@ func VerifC06Path() {
 		}
 	}
 	aliases := map[string]string{}
-	for _, al := range [][2]string{{"#n", "a"}, {"#m", "m"}, {"#k", "k"}} {
+	for _, al := range [][2]string{{"#n", "a"}, {"#m", "m"}, {"#k", "k"}, {"#d", "m.k"}, {"#e", "x.y"}} {
 		for i := 0; i+2 <= len(expr); i++ {
 			if expr[i:i+2] == al[0] {
 				aliases[al[0]] = al[1]
@@ -228,6 +241,6 @@ func VerifC06Path() {
 			}
 		}
 	}
-	vCheckCondition(expr, item, []string{"a", "m", "l"}, vals, used, aliases, "C06-path")
+	vCheckCondition(expr, item, order, vals, used, aliases, "C06-path")
 	nd.Reach("end")
 }
